@@ -305,6 +305,8 @@ var pipeShapes = []pshape{
 	34: {cs: []xclause{xq(qclause{s: bS, p: bP, o: bO})}, okinds: []int{0}, sel: []proj{pS, {binding: "o", op: "count", alias: "n"}}, groupBy: []string{"s"}, limit: 1, prop: "C11"},
 	35: {cs: []xclause{xq(qclause{s: bS, p: bP, o: bO})}, okinds: []int{0}, sel: []proj{pS, {binding: "p"}, pO}, order: []ordKey{{"s", true}}, limit: 1, prop: "C12"},
 	36: {cs: []xclause{xq(qclause{s: bS, p: bP, o: bO})}, okinds: []int{0}, sel: []proj{pS, {binding: "p"}, pO}, limit: 1, prop: "C12"},
+	// 47: a total order on anchors one nanosecond apart: the same sequence whatever order the rows arrive in
+	47: {cs: []xclause{clSAOT}, okinds: []int{0}, temporal: true, aset: []int{1, 2, 3}, sel: []proj{pS, {binding: "t"}}, order: []ordKey{{"t", true}, {"s", false}}, limit: -1, prop: "C14"},
 	46: {cs: []xclause{xq(qclause{s: bS, p: bP, o: bO})}, okinds: []int{0}, sel: []proj{pS, {binding: "p"}, pO}, having: "?s = /u<b>", havingRef: func(r rrow) bool { return r["s"].b == 'b' }, limit: 1, prop: "C12"},
 	// ---- LIMIT together with a global time bound over the open clause (the limit is pushed into the driver lookup)
 	44: {cs: []xclause{xq(qclause{s: bS, p: bP, o: bO})}, okinds: []int{0}, temporal: true, sel: []proj{pS, {binding: "p"}, pO}, hasGlobal: true, global: window{2, -1}, limit: 1, prop: "C12"},
